@@ -58,13 +58,15 @@ func selftestDeterminism(args []string) int {
 			bins[s.race] = b
 		}
 		n := "200"
+		reps := 3
 		if s.race {
-			n = "60"
+			n = "80"
+			reps = 5
 		}
 		var ref []string
 		k := 0
 		for _, procs := range []string{"1", "4", "16"} {
-			for rep := 0; rep < 3; rep++ {
+			for rep := 0; rep < reps; rep++ {
 				out := filepath.Join(scr, fmt.Sprintf("det.%s.%s.%d.jsonl", s.prop, procs, rep))
 				cmd := exec.Command(bins[s.race], "batch", "-sim", s.sim, "-prop", s.prop, "-seed", "77", "-n", n, "-hashes", "-out", out)
 				cmd.Env = append(os.Environ(), "GOMAXPROCS="+procs)
